@@ -909,6 +909,22 @@ fn plan_masks(plan: &mut Plan, types: &[MaskType], thorough: bool, light: bool, 
                     let f = random_free_set(&mut rng, ty.bits, pmax);
                     plan.tasks.push(Task::Mask { ty: tyi as u8, dir, x: to_x(f), cross: false });
                 }
+                // long walks (2^21 .. 2^22 members, 2^23 in thorough): the 21 lowest bits; the 11 highest (sign bit included)
+                // with the 11 lowest; 21 bits straddling the middle of the type (bits 31..51 of a 64-bit type)
+                let b = ty.bits;
+                let low21: u128 = (1 << 21) - 1;
+                let ends: u128 = ((1u128 << 11) - 1) | (((1u128 << 11) - 1) << (b - 11));
+                let mid: u128 = (((1u128 << 21) - 1) << (b / 2 - 1)) & full;
+                let mut long = vec![low21, ends, mid];
+                if thorough {
+                    long.push(((1u128 << 23) - 1) << (b - 23));
+                }
+                for f in long {
+                    if light {
+                        break;
+                    }
+                    plan.tasks.push(Task::Mask { ty: tyi as u8, dir, x: to_x(f & full), cross: false });
+                }
             }
         }
     }
